@@ -2,7 +2,6 @@ package ir
 
 import (
 	"fmt"
-	"go/ast"
 	"go/types"
 	"sort"
 	"strings"
@@ -200,43 +199,50 @@ type AnteEntry struct {
 	Pos    string
 }
 
-// AnteChain evaluates the []sdk.AnteDecorator literal handed to ChainAnteDecorators.
+// AnteChain evaluates the decorator list handed to sdk.ChainAnteDecorators in the application's
+// ante package: the call is found in the SSA form and its variadic argument is evaluated to the
+// ordered list of elements — a slice literal, append(a, b...) concatenations of such lists, and
+// in-scope helper functions returning one (each with a single return value) are followed.
 func (w *World) AnteChain() ([]AnteEntry, error) {
 	pk := w.Pkg("ante")
 	if pk == nil {
 		return nil, fmt.Errorf("package ante not loaded")
 	}
-	// the decorator list is the one []sdk.AnteDecorator literal of the application's ante package
-	// (in NewAnteHandler itself or in a function it was moved into)
-	var lits []*ast.CompositeLit
-	for _, file := range pk.Syntax {
-		ast.Inspect(file, func(n ast.Node) bool {
-			if cl, ok := n.(*ast.CompositeLit); ok {
-				if tv, ok := pk.TypesInfo.Types[cl]; ok {
-					if sl, ok := tv.Type.Underlying().(*types.Slice); ok && isNamed(sl.Elem(), pkgSDKTypes, "AnteDecorator") {
-						lits = append(lits, cl)
+	var calls []ssa.CallInstruction
+	for _, f := range w.Funcs {
+		if FnPkg(f) == nil || FnPkg(f) != pk.Types {
+			continue
+		}
+		for _, b := range f.Blocks {
+			for _, in := range b.Instrs {
+				if c, ok := in.(ssa.CallInstruction); ok {
+					if sc := c.Common().StaticCallee(); sc != nil && sc.Name() == "ChainAnteDecorators" && FnPkg(sc) != nil && FnPkg(sc).Path() == pkgSDKTypes {
+						calls = append(calls, c)
 					}
 				}
 			}
-			return true
-		})
+		}
 	}
-	if len(lits) != 1 {
-		return nil, fmt.Errorf("expected exactly one []sdk.AnteDecorator literal in package ante, found %d", len(lits))
+	if len(calls) != 1 || len(calls[0].Common().Args) != 1 {
+		return nil, fmt.Errorf("expected exactly one sdk.ChainAnteDecorators call in package ante, found %d", len(calls))
+	}
+	elems, err := w.sliceElems(calls[0].Common().Args[0], 0)
+	if err != nil {
+		return nil, fmt.Errorf("decorator list of %s: %v", w.InstrPos(calls[0]), err)
 	}
 	anteT := w.LookupType(pkgSDKTypes, "AnteDecorator").Underlying().(*types.Interface)
 	var out []AnteEntry
-	for _, el := range lits[0].Elts {
-		call, ok := el.(*ast.CallExpr)
-		if !ok {
-			return nil, fmt.Errorf("non-call element in decorator list at %s", w.Pos(el.Pos()))
+	for _, el := range elems {
+		v := el
+		if mi, ok := v.(*ssa.MakeInterface); ok {
+			v = mi.X
 		}
-		obj := CalleeObj(pk, call)
-		if obj == nil {
-			return nil, fmt.Errorf("unresolved decorator constructor at %s", w.Pos(el.Pos()))
+		call, ok := v.(*ssa.Call)
+		if !ok || call.Call.StaticCallee() == nil || call.Call.StaticCallee().Object() == nil {
+			return nil, fmt.Errorf("decorator list element is not a constructor call at %s", w.Pos(el.Pos()))
 		}
-		rt := pk.TypesInfo.Types[call].Type
-		ent := AnteEntry{Ctor: obj.FullName(), Type: rt.String(), Pos: w.Pos(el.Pos())}
+		rt := call.Type()
+		ent := AnteEntry{Ctor: call.Call.StaticCallee().Object().(*types.Func).FullName(), Type: rt.String(), Pos: w.Pos(call.Pos())}
 		if n := namedOf(rt); n != nil && InScope(n.Obj().Pkg()) {
 			for _, f := range w.Implementers(anteT, "AnteHandle") {
 				if rn := namedOf(f.Signature.Recv().Type()); rn != nil && rn.Obj() == n.Obj() {
@@ -247,4 +253,75 @@ func (w *World) AnteChain() ([]AnteEntry, error) {
 		out = append(out, ent)
 	}
 	return out, nil
+}
+
+// sliceElems evaluates a slice value built from literals, append concatenations and helper
+// functions to its ordered elements.
+func (w *World) sliceElems(v ssa.Value, depth int) ([]ssa.Value, error) {
+	if depth > 8 {
+		return nil, fmt.Errorf("slice construction nested too deep")
+	}
+	switch x := v.(type) {
+	case *ssa.Const:
+		if x.IsNil() {
+			return nil, nil
+		}
+	case *ssa.ChangeType:
+		return w.sliceElems(x.X, depth)
+	case *ssa.Slice:
+		al, ok := x.X.(*ssa.Alloc)
+		if !ok || x.Low != nil || x.High != nil {
+			break
+		}
+		arr, ok := al.Type().Underlying().(*types.Pointer).Elem().Underlying().(*types.Array)
+		if !ok || al.Referrers() == nil {
+			break
+		}
+		out := make([]ssa.Value, arr.Len())
+		for _, r := range *al.Referrers() {
+			ia, ok := r.(*ssa.IndexAddr)
+			if !ok {
+				continue
+			}
+			c, ok := ia.Index.(*ssa.Const)
+			if !ok || ia.Referrers() == nil {
+				return nil, fmt.Errorf("non-constant index in slice literal")
+			}
+			for _, rr := range *ia.Referrers() {
+				if st, ok := rr.(*ssa.Store); ok && st.Addr == ia {
+					out[c.Int64()] = st.Val
+				}
+			}
+		}
+		for i, e := range out {
+			if e == nil {
+				return nil, fmt.Errorf("element %d of the slice literal is not set", i)
+			}
+		}
+		return out, nil
+	case *ssa.Call:
+		if b, ok := x.Call.Value.(*ssa.Builtin); ok && b.Name() == "append" && len(x.Call.Args) == 2 {
+			a, err := w.sliceElems(x.Call.Args[0], depth+1)
+			if err != nil {
+				return nil, err
+			}
+			c, err := w.sliceElems(x.Call.Args[1], depth+1)
+			if err != nil {
+				return nil, err
+			}
+			return append(append([]ssa.Value{}, a...), c...), nil
+		}
+		if sc := x.Call.StaticCallee(); sc != nil && len(sc.Blocks) > 0 && sc.Signature.Results().Len() == 1 {
+			var rets []*ssa.Return
+			for _, b := range sc.Blocks {
+				if r, ok := b.Instrs[len(b.Instrs)-1].(*ssa.Return); ok {
+					rets = append(rets, r)
+				}
+			}
+			if len(rets) == 1 {
+				return w.sliceElems(rets[0].Results[0], depth+1)
+			}
+		}
+	}
+	return nil, fmt.Errorf("slice value %s is not a literal, an append of literals or a helper returning one", v)
 }
